@@ -27,6 +27,7 @@ class MemoryPool;
 ///
 class EratMedium : public Wheel30_t
 {
+  PRIMESIEVE_VERIF_FRIEND
 public:
   void init(uint64_t, uint64_t, MemoryPool&);
   bool hasSievingPrimes() const { return !buckets_.empty(); }
